@@ -7,9 +7,14 @@ Transcribes:
                                            `ServiceInstanceName.split_name`, which is exercised by the
                                            harness, not modelled)
   * `parse_string`            dns.py:139
-  * `parse_domain_name`       dns.py:149  (NO jump limit in the pinned code: a pointer cycle loops
-                                           forever — defect D2 / property C05.  Modelled with fuel
-                                           `msg.length + 1`; running out of fuel is reported as `hang`)
+  * `parse_domain_name`       dns.py:149  (as repaired by `fix: parse_domain_name rejects compression
+                                           pointers that do not point strictly backwards` — defect D2 /
+                                           property C05: a pointer must point before `segment_start`, the
+                                           offset where the part of the name being read began, else
+                                           `ValueError`.  The loop is modelled with fuel `(n+1)²`, n =
+                                           `msg.length`; `Props/C05Dns.parseName_never_hangs` proves the
+                                           fuel is never exhausted (`hang` unreachable).  The pinned loop,
+                                           which has no such check, is `C05.Model.parseNamePinnedF`.)
   * `parse_txt_dict`          dns.py:206
   * `parse_srv_dict`          dns.py:233
   * `QueryType.parse_rdata`   dns.py:257
@@ -109,10 +114,11 @@ structure NameRes where
 def readByte (msg : Bytes) (pos : Nat) : Option UInt8 := (msg.drop pos).head?
 
 /-- one iteration of the `while buffer:` loop per unit of fuel.
-    `ret` = `compression_offset` (set at the first pointer only). -/
-def parseNameF (msg : Bytes) : Nat → Nat → List Bytes → Option Nat → NameRes
-  | 0, pos, acc, _ => ⟨some .hang, acc, pos⟩
-  | f + 1, pos, acc, ret =>
+    `seg` = `segment_start` (where the part of the name being read began: a pointer must point
+    before it), `ret` = `compression_offset` (set at the first pointer only). -/
+def parseNameF (msg : Bytes) : Nat → Nat → Nat → List Bytes → Option Nat → NameRes
+  | 0, pos, _, acc, _ => ⟨some .hang, acc, pos⟩
+  | f + 1, pos, seg, acc, ret =>
     match readByte msg pos with
     | none => ⟨some .struct, acc, pos⟩                 -- struct.unpack(">B", b"")
     | some b =>
@@ -122,18 +128,23 @@ def parseNameF (msg : Bytes) : Nat → Nat → List Bytes → Option Nat → Nam
         match readByte msg (pos + 1) with
         | none => ⟨some .struct, acc, pos + 1⟩          -- struct.unpack(">H", 1 byte)
         | some lo =>
-          parseNameF msg f ((n % 64) * 256 + lo.toNat) acc (some (ret.getD (pos + 2)))
+          let target := (n % 64) * 256 + lo.toNat
+          if seg ≤ target then ⟨some .value, acc, pos + 2⟩     -- `new_offset >= segment_start`: ValueError
+          else parseNameF msg f target target acc (some (ret.getD (pos + 2)))
       else if n / 64 = 0 then
         let label := (msg.drop (pos + 1)).take n      -- may be short at EOF
         if isAce label then ⟨some .idna, acc, pos + 1 + label.length⟩       -- label.decode("idna"): parameter
-        else if utf8Valid label then parseNameF msg f (pos + 1 + label.length) (acc ++ [label]) ret
+        else if utf8Valid label then parseNameF msg f (pos + 1 + label.length) seg (acc ++ [label]) ret
         else ⟨some .unicode, acc, pos + 1 + label.length⟩
       else ⟨some .assert, acc, pos + 1⟩                 -- assert length_flags in (0, 0b11)
 
-/-- `parse_domain_name(buffer)` with the stream at `pos`.  Every terminating run visits pairwise
-    distinct positions `< msg.length`, so `msg.length + 1` iterations are enough; exhausting them
-    means the real loop does not terminate. -/
-def parseName (msg : Bytes) (pos : Nat) : NameRes := parseNameF msg (msg.length + 1) pos [] none
+/-- iterations granted to the name loop: `(n + 1)²`.  Each jump moves `segment_start` strictly
+    towards 0 and each label moves the position strictly forward, so `seg·(n+1) + (n − pos) + 1`
+    bounds the remaining iterations (`Props/C05Dns`). -/
+def nameFuel (msg : Bytes) : Nat := (msg.length + 1) * (msg.length + 1)
+
+/-- `parse_domain_name(buffer)` with the stream at `pos` (`segment_start = buffer.tell()`). -/
+def parseName (msg : Bytes) (pos : Nat) : NameRes := parseNameF msg (nameFuel msg) pos pos [] none
 
 /-! ## fixed-width fields -/
 
